@@ -55,6 +55,8 @@ def setup():
             jobs.append(dict(source=w["source"], defines=w.get("defines", ()), compiler=w.get("compiler", "g++"), std=w.get("std", "c++11"),
                              opt=w.get("opt", "-O1"), sanitize=w.get("sanitize", True), name=w["name"]))
     jobs.append(dict(source="cq_run.cpp", name="cq_run"))
+    for r in props_conc.RUNNERS_CC:
+        jobs.append(dict(source=r["source"], defines=r["defines"], name=r["name"]))
     for fn in SETUP_HOOKS:
         jobs += fn()
     build_many(jobs)
